@@ -535,6 +535,10 @@ def run_bottleneck(ctx, n):
             ctx.report(f"E3 correspondence broken: max_bottleneck_path returned {got}, model {mod} (case {i})", replay, concrete=False)
 
 
+class _TooManyRounds(Exception):
+    pass
+
+
 def run_peeling(ctx, n):
     import flowpaths as fp
     from flowpaths.utils import graphutils
@@ -548,11 +552,15 @@ def run_peeling(ctx, n):
             G = nx.DiGraph(); G.add_nodes_from(["a", "b"][:rng.choice([1, 2])]); conserving = True
         before = {(u, v): d["flow"] for u, v, d in G.edges(data=True)}
         st = fp.stDAG(G)
-        calls = []
-        def spy(H, attr, calls=calls):
+        calls = []; rounds = [0]
+        limit = sum(1 for x in before.values() if x > 0) + 3          # theorem: at most #positive edges rounds
+        def spy(H, attr, calls=calls, rounds=rounds, limit=limit):
             names = list(H.nodes()); ids = {v: j for j, v in enumerate(names)}
             if not calls:
                 calls.append((names, structure(H, ids, attr)))
+            rounds[0] += 1
+            if rounds[0] > limit:
+                raise _TooManyRounds(f"more than {limit} rounds")
             return orig(H, attr)
         graphutils.max_bottleneck_path = spy
         try:
@@ -586,6 +594,8 @@ def run_peeling(ctx, n):
         after = {(u, v): d["flow"] for u, v, d in G.edges(data=True)}
         if after != before:
             ctx.report("decompose_using_max_bottleneck changed the caller's graph", replay, concrete=True); continue
+        if got == "_TooManyRounds":
+            ctx.report(f"greedy peeling does not terminate within #positive edges ({npos}) + 1 rounds on a non-negative flow", replay, concrete=True); continue
         if not before:
             if got != ([], []):
                 ctx.report(f"decompose_using_max_bottleneck on a DAG without edges: {got} instead of ([], [])", replay, key=K_NOEDGE, concrete=True)
@@ -719,12 +729,13 @@ def run_antichain(ctx, n):
             if mode == "width_ignore" and rng.random() < 0.3: ign = ign + ign[:1]
             weight = {e: int(e not in set(ign)) for e in edges}
             call = None
+        plain = None
         try:
             if call is not None:
                 cost, anti = call(True); cost2 = call(False)
             else:
                 w_first = st.get_width(ign or None)
-                if ign: st.get_width()                                     # the cached plain width must not leak into the ignore query
+                plain = st.get_width() if ign else None                    # asked between two ignore-list queries: caches must not leak either way
                 cost = st.get_width(ign if ign else []); cost2 = w_first
                 anti = None
             err = None
@@ -740,7 +751,14 @@ def run_antichain(ctx, n):
         Aok = [e for e in (A or []) if e in weight]
         Ptok = [[b, len(p), [ids[x] for x in p]] for p, b in (P or [])]
         reqs.append("cert " + common.toks(len(V), V, len(E), E, ids[st.source], ids[st.sink], len(W), W, len(Aok), [[ids[u], ids[v]] for u, v in Aok], len(Ptok), Ptok))
-        empty_dict = (mode == "zero" and wf == {}) or (mode == "width_ignore" and all(x == 0 for x in weight.values()))
+        if plain is not None:
+            true_plain = brute_max_antichain(edges, {e: 1 for e in edges}, reach_from)[0]
+            if plain != true_plain:
+                ctx.report(f"get_width() asked after get_width(edges_to_ignore=...) returned {plain}; the width is {true_plain} (a cached value leaked)",
+                           {"kind": "antichain", "edges": [list(e) for e in G.edges()], "nodes": list(G.nodes()), "starts": starts, "ends": ends, "mode": "width",
+                            "weights": [["S" if u == st.source else u, "T" if v == st.sink else v, 1] for u, v in edges], "true_maximum": true_plain,
+                            "ignored_first": [["S" if u == st.source else u, "T" if v == st.sink else v] for u, v in ign]}, concrete=True)
+        empty_dict = (mode in ("weights", "zero", "big") and wf == {}) or (mode == "width_ignore" and all(x == 0 for x in weight.values()))
         dflt = brute_max_antichain(edges, {e: int(e[0] != st.source and e[1] != st.sink) for e in edges}, reach_from)[0] if empty_dict else None
         meta.append((i, G, st, mode, weight, cost, cost2, anti, err, opt, wit, P, starts, ends, (empty_dict, dflt), A))
     outs = ctx.model.run(reqs)
@@ -898,7 +916,10 @@ def replay(ctx, body):
         mode = body["mode"]
         try:
             if mode == "default": cost, _ = st.compute_max_edge_antichain(get_antichain=True)
-            elif mode.startswith("width"): cost = st.get_width([e for e, x in weight.items() if x == 0] or None)
+            elif mode.startswith("width"):
+                if body.get("ignored_first"):
+                    st.get_width([(ren(u), ren(v)) for u, v in body["ignored_first"]])     # history: an ignore-list query first
+                cost = st.get_width([e for e, x in weight.items() if x == 0] or None)
             else: cost, _ = st.compute_max_edge_antichain(get_antichain=True, weight_function={e: x for e, x in weight.items()})
         except Exception as e:
             print("impl now raises", exc_kind(e)); return True
